@@ -137,7 +137,7 @@ def flags_case(case):
         evs = []
         if rc != 0:
             return [{'ev': 'Flags', 'form': 'configure', 'which': 'cflags',
-                     'exit': rc, 'out': [], 'expected': [], 'exact': True,
+                     'exit': rc, 'out': [], 'expected': [], 'exact': True, 'absent': [],
                      'note': out[-300:]}]
         e2 = dict(env)
         e2['PKG_CONFIG_PATH'] = os.path.join(bld, 'pkgconfig')
@@ -153,15 +153,99 @@ def flags_case(case):
                        for d in incs] + opts
             evs.append({'ev': 'Flags', 'form': form, 'which': 'cflags',
                         'exit': r1, 'out': syms(o1.replace('\n', ' ')),
-                        'expected': [syms(x) for x in exp], 'exact': True})
+                        'expected': [syms(x) for x in exp], 'exact': True,
+                        'absent': []})
             r2, o2 = run(['pkg-config', '--libs', name], env=e2, cwd=bld)
             evs.append({'ev': 'Flags', 'form': form, 'which': 'libs',
                         'exit': r2, 'out': syms(o2.replace('\n', ' ')),
                         'expected': [syms(x) for x in lopts + ['-lfoo']],
-                        'exact': False})
+                        'exact': False, 'absent': []})
         return evs
     finally:
         shutil.rmtree(root, ignore_errors=True)
+
+
+def shape_case(case):
+    """auto_fill on/off x includes unset / explicitly empty / given x libs
+    unset / explicitly empty / given, in a project that installs a library
+    and a header directory"""
+    auto, imode, lmode, prefix = case
+    root = scratch('verif-c17s-')
+    try:
+        src = os.path.join(root, 'src')
+        os.makedirs(os.path.join(src, 'hdir'))
+        os.makedirs(os.path.join(src, 'other'))
+        open(os.path.join(src, 'f.c'), 'w').write('int f;\n')
+        open(os.path.join(src, 'hdir', 'h.h'), 'w').write('#define H 1\n')
+        args = ["'mypkg'", "version='1.0'"]
+        if auto is not None:
+            args.append('auto_fill=%r' % auto)
+        if imode != 'unset':
+            args.append('includes=[%s]' % (
+                "header_directory('other')" if imode == 'given' else ''))
+        if lmode != 'unset':
+            args.append('libs=[%s]' % ('lib2' if lmode == 'given' else ''))
+        open(os.path.join(src, 'build.bfg'), 'w').write(
+            "project('p', version='1.0')\n"
+            "lib = static_library('foo', ['f.c'])\n"
+            "lib2 = static_library('bar', ['f.c'])\n"
+            "install(lib, header_directory('hdir', include='*.h'))\n"
+            "pkg_config(%s)\n" % ', '.join(args))
+        env = tool_env({'CC': os.path.join(BIN, 'stubcc'),
+                        'AR': os.path.join(BIN, 'stubar')})
+        bld = os.path.join(root, 'build')
+        rc, out = run(['/venv/bin/bfg9000', 'configure', bld,
+                       '--no-resolve-packages', '--backend=make', '--prefix',
+                       prefix], cwd=src, env=env)
+        if rc != 0:
+            return [{'ev': 'Flags', 'form': 'configure', 'which': 'cflags',
+                     'exit': rc, 'out': [], 'expected': [], 'exact': True,
+                     'absent': [], 'note': out[-300:], 'shape': case[:3]}]
+        fill = auto is True
+        rsrc = os.path.realpath(src)
+        e2 = dict(env)
+        e2['PKG_CONFIG_PATH'] = os.path.join(bld, 'pkgconfig')
+        e2['PKG_CONFIG_DISABLE_UNINSTALLED'] = '1'
+        evs = []
+        for form, name in (('installed', 'mypkg'),
+                           ('uninstalled', 'mypkg-uninstalled')):
+            inst = form == 'installed'
+            if imode == 'given':
+                exp = ['-I' + (os.path.join(prefix, 'include') if inst else
+                               os.path.join(rsrc, 'other'))]
+            elif imode == 'unset' and fill:
+                exp = ['-I' + (os.path.join(prefix, 'include') if inst else
+                               os.path.join(rsrc, 'hdir'))]
+            else:
+                exp = []
+            r1, o1 = run(['pkg-config', '--cflags', name], env=e2, cwd=bld)
+            evs.append({'ev': 'Flags', 'form': form, 'which': 'cflags',
+                        'exit': r1, 'out': syms(o1.replace('\n', ' ')),
+                        'expected': [syms(x) for x in exp], 'exact': True,
+                        'absent': [], 'shape': case[:3]})
+            if lmode == 'given':
+                want, absent = ['-lbar'], ['-lfoo']
+            elif lmode == 'unset' and fill:
+                want, absent = ['-lfoo'], ['-lbar']
+            else:
+                want, absent = [], ['-lfoo', '-lbar']
+            r2, o2 = run(['pkg-config', '--libs', name], env=e2, cwd=bld)
+            evs.append({'ev': 'Flags', 'form': form, 'which': 'libs',
+                        'exit': r2, 'out': syms(o2.replace('\n', ' ')),
+                        'expected': [syms(x) for x in want], 'exact': False,
+                        'absent': [syms(x) for x in absent],
+                        'shape': case[:3]})
+        return evs
+    finally:
+        shutil.rmtree(root, ignore_errors=True)
+
+
+def shape_cases():
+    return [(a, i, l, p) for a in (None, False, True)
+            for i in ('unset', 'empty', 'given')
+            for l in ('unset', 'empty', 'given')
+            for p in ('/usr/local',)] + [(True, 'empty', 'empty',
+                                          '/opt/my app')]
 
 
 def flag_cases(ck):
@@ -204,7 +288,7 @@ def main(argv):
     if ck.quick:
         sets2 = rnd.sample(sets2, 60)
     req = pmap(requires_case, sets2)
-    fl = pmap(flags_case, flag_cases(ck))
+    fl = pmap(flags_case, flag_cases(ck)) + pmap(shape_case, shape_cases())
     traces, meta = [], []
     for e in evs:
         traces.append([{k: v for k, v in e.items() if k != 'result'}])
@@ -215,7 +299,8 @@ def main(argv):
         meta.append(e)
     for group in fl:
         for e in group:
-            traces.append([{k: v for k, v in e.items() if k != 'note'}])
+            traces.append([{k: v for k, v in e.items()
+                            if k not in ('note', 'shape')}])
             meta.append(e)
     tr = [{'id': i + 1, 'events': t} for i, t in enumerate(traces)]
     rej, st = validate_traces('PkgConfig_Trace', TRACE, tr, chunk=400)
@@ -249,6 +334,9 @@ def main(argv):
                 ''.join(c for c in '#$' if c in chars)
             key = 'C17:flags:%s:%s:%s:%s' % (info[0], e['form'], e['which'],
                                             special or chars)
+            if 'shape' in e:
+                key = 'C17:shape:%s:%s:%s:auto=%s,includes=%s,libs=%s' % (
+                    (info[0], e['form'], e['which']) + tuple(e['shape']))
             what = '%s %s: expected %r got %r %s' % (
                 e['form'], e['which'], [unsyms(x) for x in e['expected']],
                 unsyms(e['out']), e.get('note', ''))
